@@ -11,6 +11,10 @@ def conc(tier):
         # retain_force must remove every rejected key also when the bin head changes while it waits for the bin lock
         ConcScenario('list/retain_force-vs-remove-head', hasher='const', capacity=2, prefill=[0, 1, 2], threads=[[('retain_force_none',)], [('remove', 0)]], preemptions=2),
         ConcScenario('list/retain_force-vs-remove-tail', hasher='const', capacity=2, prefill=[0, 1, 2], threads=[[('retain_force_none',)], [('remove', 2)]], preemptions=2),
+        # retain (not forced): a replacement that lands between the predicate's inspection and the removal must survive
+        ConcScenario('list/retain-vs-replace-head', hasher='const', capacity=2, prefill=[0, 1], threads=[[('retain_none',)], [('insert', 0)]], preemptions=2),
+        ConcScenario('list/retain-vs-replace-tail', hasher='const', capacity=2, prefill=[0, 1], threads=[[('retain_none',)], [('insert', 1)]], preemptions=2),
+        ConcScenario('tree/retain-vs-replace', hasher='const', capacity=40, prefill=list(range(10)), threads=[[('retain_none',)], [('insert', 4)]], preemptions=1, yield_loads=th),
         ConcScenario('resize/retain_force-vs-insert', hasher='identity', capacity=1, prefill=[0], threads=[[('retain_force_none',)], [('insert', 1)]], preemptions=2, yield_loads=th),
     ]
 
